@@ -476,12 +476,18 @@ def accumulate (d : List R) (p : Nat) (x : R) : Outcome (List R) :=
   if h : p < d.length then .ok (d.set p (d[p] + x)) else .panic .index
 
 /-- The body of the loop for entry `i` (`operations[i]`, `derivatives[i]` are in range by the
-    loop bounds): read the adjoint once, then the two accumulations in order. -/
+    loop bounds): read the adjoint once, then the two accumulations in order.  A parent that is
+    the entry itself (the placeholder of `append_nullary` / `append_unary`) is skipped
+    (`if operation.left_parent != i`), so that an infinite adjoint is not turned into NaN by
+    `inf * 0`. -/
 def sweepEntry (op : Op R) (i : Nat) (d : List R) : Outcome (List R) :=
   if h : i < d.length then
     let derivative := d[i]
-    match accumulate d op.leftParent (derivative * op.leftDerivative) with
-    | .ok d1 => accumulate d1 op.rightParent (derivative * op.rightDerivative)
+    match (if op.leftParent = i then .ok d
+           else accumulate d op.leftParent (derivative * op.leftDerivative)) with
+    | .ok d1 =>
+      if op.rightParent = i then .ok d1
+      else accumulate d1 op.rightParent (derivative * op.rightDerivative)
     | .panic k => .panic k
   else .panic .index
 
